@@ -7,12 +7,16 @@ from harness import core, acclib
 
 ID = 'C05'
 MODULE = 'Gpv.Props.C05'
-THEOREMS = core.theorems('C05')
+MODULES = ['Gpv.Props.C05', 'Gpv.Props.C05Float']
+THEOREMS = core.theorems('C05', 'C05Float')
 RULE = ('random accumulator kind x shape (0-d..3-d) x length x value family (small ints, dyadics, mixed int/float, '
         'python numbers and ndarrays); read after every push; model run in exact rationals, implementation in floats, '
         'compared with relative tolerance 1e-9; independent oracle = exact batch statistic in Fractions. '
         'non-trivial: length >= 3 and at least two different observations; distinct by (kind, shape, data).')
-PARTIAL = ['floating-point error bounds: checked by float_probe (a test against the exact rational batch statistic), not proved']
+PARTIAL = ['floating-point error bound of the MEAN: proved (C05Float.mean_float_error: every run of the four rounded operations under the '
+           'standard model |delta| <= u stays within 6*n*u*max|x| of the exact mean, for 8*n*u <= 1) — the model is the relative-error one '
+           '(no overflow/underflow), Lean Float itself is not reasoned about',
+           'floating-point error bounds of variance / covariance: checked by float_probe (a test against the exact rational batch statistic), not proved']
 ASSUMPTIONS = ['numpy element-wise arithmetic and broadcasting', 'inputs are finite']
 
 SHAPES = [(), (), (1,), (2,), (3,), (4,), (2, 2), (2, 3), (2, 1, 2)]
